@@ -501,7 +501,8 @@ def _cg_steihaug_subproblem(
     from jax.debug import callback
     from jax.lax import switch, while_loop
 
-    tr_norm_ord = jnp.inf if tr_norm_ord is None else tr_norm_ord  # taken from JAX
+    # NOTE, `get_boundaries_intersections` intersects with the 2-norm sphere
+    tr_norm_ord = 2 if tr_norm_ord is None else tr_norm_ord
     norm_ord = 2 if norm_ord is None else norm_ord  # TODO: change to 1
     maxiter_fallback = 20 * size(g)  # taken from SciPy's NewtonCG minimzer
     miniter = (
